@@ -31,6 +31,14 @@ PROP = dict(
         "hooks liteclient/client_verif.go, adnl_verif.go (build tag verif): extra connections option, registry accessors, VerifRetire",
     ],
     assumptions=[
+        "PeersDrain (the peer reads what is written) is NOT assumed by the invariants but IS needed for 'a call returns by its deadline': "
+        "Connection.Send writes under Connection.mu without a deadline and is not context-aware; with a stalled peer the property is FALSE on "
+        "the real client (known finding go.client.stalled, exercised in the THOROUGH tier only so that a known oracle failure does not switch off "
+        "the failing-input search of quick runs; model witness stalled_peer_outlives_deadline)",
+        "fairness for reconnect_live as Lean hypotheses over infinite executions: SockDies (F1), WeakFair writeFail/pingDone (F2), StrongFair "
+        "pingFail/reconnectStart (F3: sync.Mutex is starvation-free), WeakFair reconnectOk (F4: the server completes a handshake)",
+        "queriesMutex and connMutex critical sections are atomic steps (no nested acquisition in the code: ClientOrder obligations); only "
+        "Connection.mu is modelled as a lock that can be held across a blocking operation; 0 < nConn (NewClient always has a connection)",
         "IdsDistinct (query ids pairwise different; 256 bits from math/rand in the code): premise of demux_not_other and of part 3 of register_before_send",
         "each modelled action is atomic: one critical section under queriesMutex / connMutex / Connection.mu, or one channel operation; "
         "Go mutex, buffered-channel and select semantics are assumed",
@@ -38,6 +46,10 @@ PROP = dict(
         "Honest (each delivered answer's payload is a function of its id) is the premise of demux_own_answer / demux_not_other; demux itself has no premise",
     ],
     partial=[
+        "timeout_returns, duplicate_dropped, round_robin, status_machine_send_fails are SINGLE-STEP facts about `step` (true in every state, "
+        "by case analysis of the definition), not invariants over runs; demux_not_other needs an injective `ans` (different ids, different answers)",
+        "no theorem 'every call returns' under fairness of its own goroutine + PeersDrain (only the ingredients: rank decreases, never increases, "
+        "sends_complete_when_peers_drain); lock-order deadlock is expressible only for Connection.mu",
         "idle-timer behaviour (a healthy connection on which only pings/pongs flow must not be re-dialled; an answer arriving after > 10 s "
         "must not be lost): the 10 s silence and 3 s ping periods are constants inside liteclient/connection.go, so the scenario "
         "go.client.idle runs in REAL TIME (32 s) in the thorough tier only (it is the first line of the thorough generator, so the "
@@ -82,9 +94,12 @@ PROP = dict(
     level_text="Lean 4 theorems over a labelled transition system of the request path, for every reachable state / every enabled action "
                "list, any number of callers and connections, unconstrained environment: demux, demux_first_answer (first delivered answer for the id after registration wins, "
                "duplicate_dropped), demux_all_callers (+ demux_own_answer, demux_not_other under IdsDistinct), no_deadlock_client "
-               "(every unreturned call has an enabled own action that decreases its rank, nobody moves it backwards, a reader's channel send "
-               "never blocks, an idle reader accepts any packet), reconnect_bounded (<= 4 steps of the connection's own threads lead to a "
-               "Connected, writable, read connection — liveness under the four fairness assumptions F1-F4 stated in C12.lean) + call_can_succeed, reader_never_blocks (inductive invariant: registered id => empty channel; pending send => empty channel, unique), "
+               "(reachable states, Connection.mu modelled: an unreturned call has an enabled own action, or waits for the mutex held by a goroutine "
+               "inside a write, or is inside a write blocked by the peer; the mutex holder never waits for a mutex), stalled_peer_outlives_deadline "
+               "(witness: with a peer that stops reading a call outlives any deadline — reproduced on the real client, known finding), "
+               "sends_complete_when_peers_drain, reconnect_live (LIVENESS over infinite executions with the fairness assumptions as Lean hypotheses: "
+               "the connection is healthy again infinitely often), reconnect_recoverable (existence of a <= 5-step recovery path; not liveness) + "
+               "call_can_succeed, timeout_is_min, reader_never_blocks (inductive invariant: registered id => empty channel; pending send => empty channel, unique), "
                "register_before_send, timeout_returns, no_leak_model, status_machine (+ _send_fails, _drop_reconnects), round_robin. "
                "The invariants are proved by case analysis over all 15 actions. Tie to the code: operation-order obligations regenerated "
                "from the Go source by a go/ast translator on every run, and histories of real concurrent executions (drops, reconnects, "
